@@ -577,3 +577,85 @@ func RunState(p *core.Prog, r *core.Report) {
 		}
 	}
 }
+
+// MODE-USE — continue-on-errors may only decide WHEN the run stops, never what a rule reports: every read of
+// Opts.ContinueOnErrors in the package must be consumed by a branch condition of (*SpecValidator).Validate
+// (the early-return guards RULE-SEQ checks). A read in any other function, or a value that flows anywhere
+// else (an argument, a field of another options struct handed to a dependency), makes the error set of the
+// two modes diverge in more than the stopping point.
+func ModeUse(p *core.Prog, r *core.Report) {
+	const rule = "MODE-USE"
+	n := 0
+	seq := map[string]int{}
+	for _, f := range p.Funcs {
+		fn := core.FuncName(f)
+		core.EachInstr(f, func(i ssa.Instruction) {
+			var loaded ssa.Value
+			switch x := i.(type) {
+			case *ssa.UnOp:
+				if x.Op != token.MUL {
+					return
+				}
+				fa, ok := x.X.(*ssa.FieldAddr)
+				if !ok {
+					return
+				}
+				if _, name, _ := core.FieldOf(fa); name != "ContinueOnErrors" {
+					return
+				}
+				loaded = x
+			case *ssa.Field:
+				if _, name, _ := core.FieldOf(x); name != "ContinueOnErrors" {
+					return
+				}
+				loaded = x
+			default:
+				return
+			}
+			n++
+			base := fn + ":read"
+			seq[base]++
+			key := base
+			if seq[base] > 1 {
+				key = fmt.Sprintf("%s#%d", base, seq[base])
+			}
+			bad := ""
+			if fn != "(*SpecValidator).Validate" {
+				bad = "the mode is read outside (*SpecValidator).Validate"
+			}
+			var follow func(v ssa.Value, d int)
+			follow = func(v ssa.Value, d int) {
+				if d > 4 || bad != "" {
+					return
+				}
+				for _, ref := range core.Refs(v) {
+					switch y := ref.(type) {
+					case *ssa.If, *ssa.DebugRef:
+					case *ssa.UnOp:
+						if y.Op == token.NOT {
+							follow(y, d+1)
+						} else {
+							bad = "used by " + y.String()
+						}
+					case *ssa.Phi:
+						if b, ok := y.Type().Underlying().(*types.Basic); ok && b.Kind() == types.Bool {
+							follow(y, d+1) // short-circuit && / ||
+						} else {
+							bad = "flows into " + y.String()
+						}
+					default:
+						bad = "flows into `" + ref.String() + "`"
+					}
+				}
+			}
+			follow(loaded, 0)
+			if bad != "" {
+				r.Bad(rule, key, p.Pos(posOf(i, f)), "continue-on-errors must only guard the early returns of Validate, but here "+bad+": what is reported (not just when the run stops) depends on the mode, so the stop-early errors are no longer a subset of the continue-on-errors ones")
+			} else {
+				r.OK(rule, key, p.Pos(posOf(i, f)), "the mode is only consumed by branch conditions of Validate (early-return guards)")
+			}
+		})
+	}
+	r.Count("mode_reads", n)
+	r.Floor("mode_reads", 3)
+}
